@@ -26,7 +26,9 @@ SCENARIOS = {
         racks={'rack:r1': ['s1', 's2'], 'rack:r2': ['s3']}, partitions=['pB'], traits=['t1'],
         sprofiles=[dict(cap=[2048, 2, 2048], label='_default', traits=[]),
                    dict(cap=[3072, 3, 3072], label='pB', traits=['t1']),
-                   dict(cap=[1024, 1, 1024], label='_default', traits=['t1'])],
+                   dict(cap=[1024, 1, 1024], label='_default', traits=['t1']),
+                   dict(cap=[3072, 1, 1024], label='_default', traits=[]),
+                   dict(cap=[1024, 3, 3072], label='_default', traits=[])],
         server_init={'s1': 1, 's2': 1, 's3': 2},
         allocsets=[[_alloc('proid/x', '_default', [('proid.web*', 1)]),
                     _alloc('proid/z', 'pB', [('proid.db*', 5)])],
@@ -136,6 +138,48 @@ def gen_random(scn, rng, depth):
             hist.append(('Restart', []))
             alive = True
     hist.append(('Cycle', []) if alive else ('Restart', []))
+    hist.append(('Restart', []))
+    return hist
+
+
+def gen_servers(scn, rng, depth):
+    """Focused L2 histories on the server life cycle: instances placed, then a
+    small alphabet of server events - presence lost / re-registered with another
+    capacity profile, administrator state changes (frozen/up/down), partition
+    change, clock - with cycles in between."""
+    napps = rng.randrange(2, len(scn['apps']) + 1)
+    hist = [('CreateApp', [scn['apps'][j], rng.randrange(len(scn['aprofiles'])) + 1])
+            for j in range(napps)]
+    hist.append(('Cycle', []))
+    servers = sorted(s for s, k in scn['server_init'].items() if k)
+    up = set(servers)
+    for _ in range(depth):
+        r = rng.random()
+        s = rng.choice(servers)
+        if r < 0.22:
+            hist.append(('Cycle', []))
+        elif r < 0.42:
+            if s in up:
+                hist.append(('NodeDown', [s]))
+                up.discard(s)
+            else:
+                hist.append(('NodeUp', [s, rng.randrange(len(scn['sprofiles'])) + 1]))
+                up.add(s)
+        elif r < 0.55 and s in up:
+            # re-registration (reboot) with possibly different capacity
+            hist.append(('NodeDown', [s]))
+            hist.append(('NodeUp', [s, rng.randrange(len(scn['sprofiles'])) + 1]))
+        elif r < 0.72:
+            st = rng.choice(['frozen', 'frozen', 'up', 'down'])
+            marked = [a for a in scn['apps'][:napps] if rng.random() < 0.3] if st == 'frozen' else []
+            hist.append(('ServerState', [s, st, marked]))
+        elif r < 0.90:
+            hist.append(('Tick', [rng.choice([1, 2, 3, 6])]))
+        elif r < 0.95:
+            hist.append(('SetPartition', [s, rng.choice(['_default', 'pB'])]))
+        else:
+            hist.append(('Restart', []))
+    hist.append(('Cycle', []))
     hist.append(('Restart', []))
     return hist
 
